@@ -15,6 +15,8 @@ Decided structurally:
   C13.store    setter/getter pairs address the same field; per-user-number settings are keyed by the current user
                number; file-name setters ignore null/empty names; constructor defaults as documented
   C13.keyparam a method taking a user number keys its map look-ups on that parameter
+  C13.domain   a per-user-number setter that stores under a test of the current user number stores for every number
+               SetCurrentSelectedOutputUserNumber accepts (predicates evaluated over the accepted integers)
 """
 import json
 import os
@@ -243,6 +245,7 @@ def run(P, R, tier):
     from . import c08 as C08
     C08.restore_rules(P, R, RULE="C13.restore")
     check_store(P, R, rec)
+    domain_rule(P, R)
 
 
 # ------------------------------------------------------------------------------------------------------------
@@ -909,6 +912,95 @@ def _unwrap_construct(n):
     while T.is_node(n) and n[0] == "Construct" and (len(n[3]) == 1 or (n[3] and isinstance(n[2], dict) and n[2].get("cls", "").startswith("std::basic_string"))):
         n = T.strip_casts(n[3][0])
     return n
+
+
+def domain_rule(P, R):
+    """Simple store over the whole accepted domain: the current selected-output user number is whatever
+    SetCurrentSelectedOutputUserNumber accepted (its guard on the parameter) or a constant assigned by the constructor / unload.
+    A per-user-number setter that stores only under a test of that member must store for every accepted number; a narrower test
+    makes the setter silently ignore some accepted user number while the getter keeps returning the old value."""
+    RULE = "C13.domain"
+    R.rule(RULE, "per-user-number setters store for every user number SetCurrentSelectedOutputUserNumber accepts", minimum=1)
+    FQ = "IPhreeqc::CurrentSelectedOutputUserNumber"
+    OPS = {"<": lambda a, b: a < b, "<=": lambda a, b: a <= b, ">": lambda a, b: a > b, ">=": lambda a, b: a >= b,
+           "==": lambda a, b: a == b, "!=": lambda a, b: a != b}
+
+    def lit(n):
+        n = T.strip_casts(n)
+        if n[0] == "Lit" and n[2] == "int":
+            try:
+                return int(n[3])
+            except ValueError:
+                return None
+        if n[0] == "Un" and n[2] == "-" and lit(n[3]) is not None:
+            return -lit(n[3])
+        return None
+
+    def pred(cond, is_var):
+        """cond as a predicate over the integer designated by is_var, or None"""
+        cond = T.strip_casts(cond)
+        if cond[0] == "Paren":
+            return pred(cond[2], is_var)
+        if cond[0] == "Bin" and cond[2] in OPS:
+            a, b = T.strip_casts(cond[3]), T.strip_casts(cond[4])
+            if is_var(a) and lit(b) is not None:
+                k = lit(b)
+                return lambda v, op=OPS[cond[2]], k=k: op(v, k)
+            if is_var(b) and lit(a) is not None:
+                k = lit(a)
+                return lambda v, op=OPS[cond[2]], k=k: op(k, v)
+        if cond[0] == "Bin" and cond[2] in ("&&", "||"):
+            p1, p2 = pred(cond[3], is_var), pred(cond[4], is_var)
+            if p1 and p2:
+                return (lambda v: p1(v) and p2(v)) if cond[2] == "&&" else (lambda v: p1(v) or p2(v))
+        return None
+
+    is_member = lambda n: n[0] == "Member" and n[2] == FQ
+    setter = P.one("IPhreeqc::SetCurrentSelectedOutputUserNumber")
+    accept = None
+    consts = set()
+    for f in P.functions.values():
+        if not f["q"].startswith("IPhreeqc::") or not f.get("body"):
+            continue
+        for x in T.walk(f["body"]):
+            if x[0] == "Bin" and x[2] == "=" and is_member(T.strip_casts(x[3])):
+                v = lit(x[4])
+                if v is not None:
+                    consts.add(v)
+        for ini in f.get("inits", []) or []:
+            pass
+    # the accept predicate: the If in the setter whose then-branch assigns the member from the parameter
+    for x in T.walk(setter["body"]):
+        if x[0] == "If" and any(y[0] == "Bin" and y[2] == "=" and is_member(T.strip_casts(y[3])) for y in T.walk(x[3])):
+            accept = pred(x[2], lambda n: n[0] == "Ref" and n[2] == "param")
+    if accept is None:
+        R.anchor_missing(RULE, "SetCurrentSelectedOutputUserNumber: guarded assignment `if (<test of n>) CurrentSelectedOutputUserNumber = n` not found")
+        return
+    samples = [v for v in list(range(-3, 8)) + [1000, 2 ** 31 - 1] if accept(v)] + sorted(consts)
+    R.info["C13.domain accepted samples"] = samples[:8]
+    n = 0
+    for f in P.functions.values():
+        if not f["q"].startswith("IPhreeqc::") or not f.get("body") or f["q"] == setter["q"]:
+            continue
+        for x in T.walk(f["body"]):
+            if x[0] != "If":
+                continue
+            if not any(is_member(y) for y in T.walk(x[2])):
+                continue
+            p = pred(x[2], is_member)
+            if p is None:
+                continue
+            n += 1
+            inst = "%s@%d" % (f["q"].split("::")[-1], x[1])
+            bad = [v for v in samples if not p(v)]
+            if bad:
+                R.violation(RULE, inst, "`%s` is false for user number %s, which SetCurrentSelectedOutputUserNumber accepts: the guarded statement is silently skipped for that "
+                            "user number (a setter stores nothing and the getter keeps returning the old value)" % (T.text(x[2])[:70], bad[0]),
+                            file=f["file"], line=x[1], function=f["q"])
+            else:
+                R.ok(RULE, inst, "`%s` holds for every accepted user number" % T.text(x[2])[:60])
+    if n == 0:
+        R.anchor_missing(RULE, "no test of CurrentSelectedOutputUserNumber against a constant found (confirmed instance: SetSelectedOutputFileOn)")
 
 
 def check_store(P, R, rec):
